@@ -100,7 +100,7 @@ class C18(PoolCheck):
         epilogue['doc'] = rng.choice(pool)
         policy = dict(rng.choice(POLICIES))
         return {'entry': key, 'scenario': scenario, 'programs': programs, 'epilogue': epilogue,
-                'policy': policy, 'sseed': rng.randrange(1 << 30)}
+                'policy': policy, 'sseed': rng.randrange(1 << 30), 'knobs': histories.gen_knobs(rng)}
 
     # ------------------------------------------------------------------
     def run_case(self, case):
@@ -108,6 +108,7 @@ class C18(PoolCheck):
         e = self.entries[case['entry']]
         scenario = case['scenario']
         schema = self.unbuilt[case['entry']] if scenario == 'racing_build' else e.schema
+        histories.apply_knobs(schema, case.get('knobs'))
         sched = simsched.Scheduler(random.Random(case['sseed']), case['policy'], replay=case.get('schedule'))
         simsched.install_locks(sched, [schema])
         env = self.new_env()
@@ -212,6 +213,9 @@ class C18(PoolCheck):
         counters['switches_with_2_threads_active'] = sched.concurrent_switches
         counters['policy_' + case['policy']['kind']] = 1
         counters['scenario_' + scenario] = 1
+        kn = case.get('knobs') or {}
+        counters['knob_selectors_prefill_%s' % kn.get('selectors_prefill', 0)] = 1
+        counters['knob_use_cache_%s' % kn.get('use_cache', True)] = 1
         for k, v in sched.probes.items():
             counters['probe_' + k] = v
         if scenario == 'racing_build' and sched.probes.get('lock_contended_build_lock'):
